@@ -167,18 +167,6 @@ Definition model_entries (r : res (list entry)) : sx :=
   | Err e => sx_of_err e
   end.
 
-(* the domain of the restricted table theorem, per entry *)
-Definition entry_domain (s : ssection) (off : Z) (e : sentry) : bool :=
-  match e with
-  | SCie c => cie_domain (lv (c_caf c)) (lv (c_daf c)) (c_instrs c)
-  | SFde f =>
-      let c := cie_at (s_entries s) (f_cie f) in
-      fde_domain (lv (c_caf c)) (lv (c_daf c)) (c_instrs c)
-                 (ptr_meaning (fde_pcrel (s_eh s) c) (s_addr s) (loc_field_off off f)
-                              (lv (f_loc f)))
-                 (f_instrs f)
-  | SZero => true
-  end.
 Fixpoint per_entry {A} (s : ssection) (f : Z -> sentry -> A) (off : Z) (l : list sentry)
   : list A :=
   match l with
